@@ -1,8 +1,74 @@
+import Autog.Model.Phase5
 import Autog.Lemmas.BreakMergeChains
-/-! # C05
-    Edge end points. First pass: the merged route of a broken edge is its chain (reduce_chain). -/
+/-! # C05 — edges attach to their end nodes; the arrow flag marks the target
+
+    Theorems about the router formulas of the model (key `T:phase5`): whatever the chain of nodes `ns` of a route, the
+    first point is the bottom centre of the first chain node and the last point the top centre of the last one — for
+    Straight by definition, for Polyline and Ortho by the lemmas below; `orderedNodes` puts the node of the upper band
+    first; the models of merge set `ArrowHeadStart := IsReversed`.
+    PARTIAL: that the chain `mergeLongEdges` builds starts/ends at the edge's own end nodes in band order, and the link
+    between IsReversed and the input direction, are decided per run (predicate on the public result + `T:phase5`,
+    `T:post`, `T:output`); Splines end points by predicate only. -/
 
 namespace Autog
+
+/-- `orderedNodes`: the first component is in the upper band (smaller layer index), ties by position -/
+theorem C05_orderedNodes_upper_first (g : G) (e : Nat) :
+    g.layerOf (orderedNodes g e).1 ≤ g.layerOf (orderedNodes g e).2 := by
+  unfold orderedNodes
+  by_cases h1 : g.layerOf (g.edge e).src < g.layerOf (g.edge e).dst
+  · simp only [h1, if_true]; omega
+  · by_cases h2 : g.layerOf (g.edge e).src > g.layerOf (g.edge e).dst
+    · simp only [h1, h2, if_true, if_false]; omega
+    · simp only [h1, h2, if_false]
+      split <;> (dsimp only; omega)
+
+theorem C05_orderedNodes_ends (g : G) (e : Nat) :
+    ((orderedNodes g e).1 = (g.edge e).src ∧ (orderedNodes g e).2 = (g.edge e).dst) ∨
+    ((orderedNodes g e).1 = (g.edge e).dst ∧ (orderedNodes g e).2 = (g.edge e).src) := by
+  unfold orderedNodes
+  simp only
+  split
+  · exact Or.inl ⟨rfl, rfl⟩
+  · split
+    · exact Or.inr ⟨rfl, rfl⟩
+    · split
+      · exact Or.inl ⟨rfl, rfl⟩
+      · exact Or.inr ⟨rfl, rfl⟩
+
+/-- Straight: first point = bottom centre of the first node, last point = top centre of the last -/
+theorem C05_straight_ends (g : G) (a b : Nat) :
+    (straight g a b).head? = some (startPoint g a) ∧ (straight g a b).getLast? = some (endPoint g b) := ⟨rfl, rfl⟩
+
+/-- Polyline: the list the model builds for a chain `a :: mids ++ [b]` -/
+theorem C05_polyline_ends (g : G) (a b : Nat) (mids : List Pt) :
+    ([startPoint g a] ++ mids ++ [endPoint g b]).head? = some (startPoint g a) ∧
+    ([startPoint g a] ++ mids ++ [endPoint g b]).getLast? = some (endPoint g b) := by
+  constructor
+  · simp
+  · rw [List.getLast?_append]; simp
+
+/-- Ortho: the route of a chain starting at a real node starts at that node's bottom centre … -/
+theorem C05_ortho_first (g : G) (ls layerh : Rat) (a b : Nat) (rest : List Nat) (ha : (g.node a).virt = false) :
+    (orthoPoints g ls layerh (a :: b :: rest)).head? = some (startPoint g a) := by
+  simp [orthoPoints, orthoGroup, ha]
+
+/-- … and ends at the top centre of the last chain node -/
+theorem C05_ortho_last (g : G) (ls layerh : Rat) : ∀ (a b : Nat) (rest : List Nat),
+    (orthoPoints g ls layerh (a :: b :: rest)).getLast? = some (endPoint g ((b :: rest).getLast (by simp)))
+  | a, b, [] => by simp [orthoPoints, orthoGroup]
+  | a, b, c :: rest => by
+    have ih := C05_ortho_last g ls layerh b c rest
+    have hne : orthoPoints g ls layerh (b :: c :: rest) ≠ [] := by simp [orthoPoints, orthoGroup]
+    rw [show orthoPoints g ls layerh (a :: b :: c :: rest) =
+        orthoGroup g ls layerh a b ++ orthoPoints g ls layerh (b :: c :: rest) from rfl]
+    rw [List.getLast?_append, ih]
+    simp
+
+/-- the definitions of the two attachment points -/
+theorem C05_attachment_points (g : G) (n : Nat) :
+    startPoint g n = ((g.node n).x + (g.node n).w / 2, (g.node n).y + (g.node n).h) ∧
+    endPoint g n = ((g.node n).x + (g.node n).w / 2, (g.node n).y) := ⟨rfl, rfl⟩
 
 theorem C05_route_is_chain : type_of% @BreakMergeChains.reduce_chain := @BreakMergeChains.reduce_chain
 
